@@ -44,7 +44,7 @@ func projectPath(p nodePath) (string, bool) {
 				return "", false
 			}
 			continue
-		case it.kind == "COERCE" || it.kind == "IS-FACTORY" || it.kind == "CALL-FACTORY" || it.kind == "COND":
+		case it.kind == "COERCE" || it.kind == "IS-FACTORY" || it.kind == "CALL-FACTORY" || it.kind == "COND" || it.kind == "NEWCTX" || it.kind == "CTX-DATA":
 			continue
 		case it.kind == "DEST" && it.val != "catch":
 			continue
@@ -99,11 +99,18 @@ func checkC13(P *Prog, r *Result) {
 		r.sawFunc(fname(pf))
 		r.sawFunc(fname(vf))
 		P.compareTwins(r, "C13/twin-language", name, pf, vf)
-		// deferred closures (post-transforms)
-		if len(pf.AnonFuncs) == 1 && len(vf.AnonFuncs) == 1 {
-			P.compareTwins(r, "C13/twin-language", name+"#deferred", pf.AnonFuncs[0], vf.AnonFuncs[0])
-		} else if len(pf.AnonFuncs) != len(vf.AnonFuncs) {
-			r.bad("C13/twin-language", name+"#deferred", P.pos(pf.Pos()), fmt.Sprintf("the Parse twin has %d closure(s), the Validate twin %d", len(pf.AnonFuncs), len(vf.AnonFuncs)))
+		// deferred units (post-transform runners): closures or helpers deferred by the twin itself
+		pd, vd := P.deferredUnits(pf), P.deferredUnits(vf)
+		if len(pd) == 1 && len(vd) == 1 {
+			P.compareTwinSets(r, "C13/twin-language", name+"#deferred", pf, vf, func(fn *ssa.Function) (map[string]bool, bool) {
+				u := pd[0]
+				if fn == vf {
+					u = vd[0]
+				}
+				return P.projectedUnitSet(u)
+			})
+		} else if len(pd) != len(vd) {
+			r.bad("C13/twin-language", name+"#deferred", P.pos(pf.Pos()), fmt.Sprintf("the Parse twin defers %d closure(s)/helper(s) that act on the node, the Validate twin %d", len(pd), len(vd)))
 		}
 	}
 	r.floor("C13/twin-language", 12)
@@ -302,9 +309,35 @@ func checkC13(P *Prog, r *Result) {
 	r.floor("C13/twin-callback-args", 3)
 }
 
+// deferredUnits: the closures and relevant helpers the node function itself defers.
+func (P *Prog) deferredUnits(nf *ssa.Function) []*nodeUnit {
+	var out []*nodeUnit
+	for _, u := range P.nodeUnits(nf) {
+		if u.deferred && u.parent != nil && u.parent.fn == nf {
+			out = append(out, u)
+		}
+	}
+	return out
+}
+
+func (P *Prog) projectedUnitSet(u *nodeUnit) (map[string]bool, bool) {
+	paths, capHit := P.unitPaths(u)
+	set := map[string]bool{}
+	for _, p := range paths {
+		if s, ok := projectPath(p); ok {
+			set[s] = true
+		}
+	}
+	return set, capHit
+}
+
 func (P *Prog) compareTwins(r *Result, rule, name string, pf, vf *ssa.Function) {
-	ps, c1 := P.projectedSet(pf)
-	vs, c2 := P.projectedSet(vf)
+	P.compareTwinSets(r, rule, name, pf, vf, P.projectedSet)
+}
+
+func (P *Prog) compareTwinSets(r *Result, rule, name string, pf, vf *ssa.Function, proj func(*ssa.Function) (map[string]bool, bool)) {
+	ps, c1 := proj(pf)
+	vs, c2 := proj(vf)
 	if c1 || c2 {
 		r.undecided(rule, name, P.pos(pf.Pos()), "too many paths to enumerate")
 		return
